@@ -28,7 +28,13 @@
        WaitForNextMessageFromOwner(ref, 0) until B_TIMED_OUT.  Such a thread never looks at its queue unless it is
        signalled -- which is what StartInternalThread's initial signal is for.  MessageReceivedFromOwner
        is the default one (NULL -> B_SHUTTING_DOWN) extended by an arbitrary reaction [react] of the subclass: a list of
-       replies sent with SendMessageToOwner and whether it then asks to exit.
+       Messages sent with SendMessageToOwner (replies) or SendMessageToInternalThread (to itself), and whether it then
+       asks to exit.
+
+     - one user-registered socket in the owner's SOCKET_SET_READ: the blocking wait of GetNextReplyFromInternalThread also
+       returns when that socket is readable; the isFlagged values are refreshed; the signal socket has precedence
+       (readable -> poll the queue), otherwise B_IO_READY.  (A timeout fired by the controlled scheduler returns
+       B_TIMED_OUT before the flags are refreshed: that is the hook site's behaviour.)
 
    What one transition is: one atomic step of one thread -- a whole critical section under _queueLock, one signal, one
    absorb, one return.  The program counters that are *decision points* of the controlled scheduler (is_dp) are the ones
@@ -57,7 +63,13 @@ Inductive res :=
 | RTimedOut                       (* B_TIMED_OUT *)
 | RBadObject                      (* B_BAD_OBJECT *)
 | RAlreadyRunning                 (* B_ALREADY_RUNNING *)
+| RIoReady                        (* B_IO_READY: a socket of a user-registered socket set is ready *)
+| RNotFound                       (* B_DATA_NOT_FOUND *)
 | RVoid.                          (* a void method returned *)
+
+(* the owner's user-registered socket (SOCKET_SET_READ of GetOwnerThreadSocketSet): register / unregister it,
+   make it readable (somebody writes a byte to its other end), read it empty *)
+Inductive uop := UReg | UUnreg | UPing | UEat.
 
 Inductive op :=
 | OSend (c : chanid) (m : msg)    (* SendMessageToInternalThread (CI) / SendMessageToOwner (CO) *)
@@ -65,14 +77,15 @@ Inductive op :=
 | OStart                          (* StartInternalThread *)
 | OShutdown (wait : bool)         (* ShutdownInternalThread(wait) *)
 | OJoin                           (* WaitForInternalThreadToExit *)
-| OGetSock.                       (* GetOwnerWakeupSocket *)
+| OGetSock                        (* GetOwnerWakeupSocket *)
+| OUser (u : uop).                (* RegisterOwnerThreadSocket / UnregisterOwnerThreadSocket / write to / read from that socket *)
 
 (* what a thread still has to do after the call in flight returns *)
 Inductive frame :=
 | KShutdown (wait : bool)                    (* ShutdownInternalThread: the NULL Message is being sent *)
 | KDiscard                                   (* the result of the inner call is dropped, the outer one returns void *)
 | KLoop                                      (* InternalThreadEntry: WaitForNextMessageFromOwner is in flight *)
-| KReplies (rs : list msg) (quit : bool).    (* MessageReceivedFromOwner: replies still to send, then continue / exit *)
+| KReplies (rs : list (chanid * msg)) (quit : bool).   (* MessageReceivedFromOwner: Messages still to send, then continue / exit *)
 
 Inductive pc :=
 | PIdle
@@ -96,6 +109,7 @@ Inductive pc :=
 | PJoinTest
 | PJoinWait                                  (* blocked in join() *)
 | PGetSock
+| PUser (u : uop)
 (* InternalThreadEntryAux *)
 | PIEntry                                    (* created, has not run yet *)
 | PIStartupCS                                (* about to lock the reply queue's lock *)
@@ -139,6 +153,12 @@ Definition ch0 : chan := mkCh [] 0 0%N [] [].
 
 Inductive istat := INone | ILive | IExited.    (* the native internal thread: none / running / past its last statement *)
 
+(* the owner's socket set: is the user socket registered, how many bytes are readable on it, the table's isFlagged value
+   (what IsOwnerThreadSocketReady returns) *)
+Record usr := mkU { u_reg : bool; u_bytes : nat; u_flag : bool }.
+
+Definition usr0 : usr := mkU false 0 false.
+
 Record gst := mkG {
   g_sockets : bool;               (* _useMessagingSockets (constant) *)
   g_evd     : bool;               (* the subclass's InternalThreadEntry is the event-driven one (constant) *)
@@ -149,21 +169,22 @@ Record gst := mkG {
   g_co      : chan;
   g_ist     : istat;
   g_il      : local;              (* where the internal thread is (meaningful while g_ist = ILive) *)
-  g_gen     : nat                 (* number of internal threads created so far *)
+  g_gen     : nat;                (* number of internal threads created so far *)
+  g_usr     : usr
 }.
 
-Definition g0 (sockets evd : bool) : gst := mkG sockets evd (negb sockets) false false ch0 ch0 INone (mkL PIDone []) 0.
+Definition g0 (sockets evd : bool) : gst := mkG sockets evd (negb sockets) false false ch0 ch0 INone (mkL PIDone []) 0 usr0.
 
 Definition ch (g : gst) (c : chanid) : chan := match c with CI => g_ci g | CO => g_co g end.
 
 Definition set_ch (c : chanid) (x : chan) (g : gst) : gst :=
   match c with
-  | CI => mkG (g_sockets g) (g_evd g) (g_alloc g) (g_running g) (g_iopen g) x (g_co g) (g_ist g) (g_il g) (g_gen g)
-  | CO => mkG (g_sockets g) (g_evd g) (g_alloc g) (g_running g) (g_iopen g) (g_ci g) x (g_ist g) (g_il g) (g_gen g)
+  | CI => mkG (g_sockets g) (g_evd g) (g_alloc g) (g_running g) (g_iopen g) x (g_co g) (g_ist g) (g_il g) (g_gen g) (g_usr g)
+  | CO => mkG (g_sockets g) (g_evd g) (g_alloc g) (g_running g) (g_iopen g) (g_ci g) x (g_ist g) (g_il g) (g_gen g) (g_usr g)
   end.
 
 Definition set_il (l : local) (g : gst) : gst :=
-  mkG (g_sockets g) (g_evd g) (g_alloc g) (g_running g) (g_iopen g) (g_ci g) (g_co g) (g_ist g) l (g_gen g).
+  mkG (g_sockets g) (g_evd g) (g_alloc g) (g_running g) (g_iopen g) (g_ci g) (g_co g) (g_ist g) l (g_gen g) (g_usr g).
 
 Definition with_sig (x : chan) (n : nat) : chan := mkCh (c_q x) n (c_wc x) (c_sent x) (c_rcvd x).
 Definition with_wc (x : chan) (n : N) : chan := mkCh (c_q x) (c_sig x) n (c_sent x) (c_rcvd x).
@@ -181,16 +202,33 @@ Definition readable (g : gst) (c : chanid) : bool :=
   then Nat.ltb 0 (c_sig (ch g c)) || match c with CO => g_alloc g && negb (g_iopen g) | CI => false end
   else N.ltb 0 (c_wc (ch g c)).
 
+Definition set_usr (u : usr) (g : gst) : gst :=
+  mkG (g_sockets g) (g_evd g) (g_alloc g) (g_running g) (g_iopen g) (g_ci g) (g_co g) (g_ist g) (g_il g) (g_gen g) u.
+
+(* the owner's registered user socket selects as ready-for-read *)
+Definition uready (g : gst) : bool := g_sockets g && u_reg (g_usr g) && Nat.ltb 0 (u_bytes (g_usr g)).
+
+(* the blocking wait of channel c's reader would return: its signal socket / wait-condition, or (owner) a user socket *)
+Definition wakeable (g : gst) (c : chanid) : bool :=
+  readable g c || match c with CO => uready g | CI => false end.
+
+(* after select() returned: the isFlagged values of the socket-set tables are refreshed *)
+Definition park_flags (c : chanid) (g : gst) : gst :=
+  match c with
+  | CO => if u_reg (g_usr g) then set_usr (mkU true (u_bytes (g_usr g)) (Nat.ltb 0 (u_bytes (g_usr g)))) g else g
+  | CI => g
+  end.
+
 (* GetThreadWakeupSocketAux: demand-allocate the connected pair *)
 Definition alloc_sockets (g : gst) : gst :=
   if g_sockets g && negb (g_alloc g)
-  then mkG (g_sockets g) (g_evd g) true (g_running g) true (with_sig (g_ci g) 0) (with_sig (g_co g) 0) (g_ist g) (g_il g) (g_gen g)
+  then mkG (g_sockets g) (g_evd g) true (g_running g) true (with_sig (g_ci g) 0) (with_sig (g_co g) 0) (g_ist g) (g_il g) (g_gen g) (g_usr g)
   else g.
 
 (* CloseSockets *)
 Definition close_sockets (g : gst) : gst :=
   if g_sockets g
-  then mkG (g_sockets g) (g_evd g) false (g_running g) false (with_sig (g_ci g) 0) (with_sig (g_co g) 0) (g_ist g) (g_il g) (g_gen g)
+  then mkG (g_sockets g) (g_evd g) false (g_running g) false (with_sig (g_ci g) 0) (with_sig (g_co g) 0) (g_ist g) (g_il g) (g_gen g) (g_usr g)
   else g.
 
 (* SignalInternalThread (c = CI: a byte on the owner's socket comes out on the internal one) /
@@ -217,15 +255,17 @@ Section Model.
 Variable early : bool.                         (* true: StartInternalThread as found (HasItems() read first, unlocked) *)
 Variable absorb_n : nat.                       (* sizeof(bytes) in WaitForNextMessageAux *)
 Variable no_limit : N.                         (* MUSCLE_NO_LIMIT *)
-Variable react : nat -> list msg * bool.       (* the subclass's MessageReceivedFromOwner: replies, and "exit now" *)
+(* the subclass's MessageReceivedFromOwner: the Messages it sends -- replies to the owner (CO), or further work to itself
+   with SendMessageToInternalThread (CI) -- and "exit now" *)
+Variable react : nat -> list (chanid * msg) * bool.
 
 Definition absorb (c : chanid) (g : gst) : gst :=
   if fd_ok g c then set_ch c (with_sig (ch g c) (c_sig (ch g c) - Nat.min (c_sig (ch g c)) absorb_n)) g else g.
 
-Definition next_reply (evd : bool) (rs : list msg) (quit : bool) (k : list frame) : pc * list frame * list ev :=
+Definition next_reply (evd : bool) (rs : list (chanid * msg)) (quit : bool) (k : list frame) : pc * list frame * list ev :=
   match rs with
   | [] => ((if quit then PIExit else if evd then PIEvPoll else PILoop), k, [])
-  | m :: rest => (PSendCS CO m, KReplies rest quit :: k, [])
+  | (c, m) :: rest => (PSendCS c m, KReplies rest quit :: k, [])
   end.
 
 (* InternalThreadEntry: what the loop does with the result of WaitForNextMessageFromOwner *)
@@ -280,9 +320,10 @@ Definition step (c : choice) (g : gst) (l : local) : option (gst * local * list 
              else goto g (PRecvPark x w) k [EPark x (N.to_nat (c_wc (ch g x)))]
       end
   | PRecvPark x w, CRun =>
-      if readable g x
+      if wakeable g x
       then (if g_sockets g
-            then goto g (PRecvAbsorb x WPoll) k [EWoken]
+            then (if readable g x then goto (park_flags x g) (PRecvAbsorb x WPoll) k [EWoken]
+                  else fin (park_flags x g) RIoReady k [EWoken])
             else goto (set_ch x (with_wc (ch g x) 0%N) g) (PRecvAbsorb x w) k [EWoken])
       else None
   | PRecvPark x WTimed, CTimeout => fin g RTimedOut k [ETimeout]
@@ -291,7 +332,7 @@ Definition step (c : choice) (g : gst) (l : local) : option (gst * local * list 
       else goto g (PStartSpawn (if early then negb (is_nil (c_q (g_ci g))) else false)) k []
   | PStartSpawn needs, CRun =>
       let g1 := alloc_sockets g in
-      goto (mkG (g_sockets g1) (g_evd g1) (g_alloc g1) true (g_iopen g1) (g_ci g1) (g_co g1) ILive (mkL PIEntry []) (S (g_gen g1)))
+      goto (mkG (g_sockets g1) (g_evd g1) (g_alloc g1) true (g_iopen g1) (g_ci g1) (g_co g1) ILive (mkL PIEntry []) (S (g_gen g1)) (g_usr g1))
            (if early then PStartSig needs else PStartSpawned) k [EFork]
   | PStartSpawned, CRun => goto g PStartCheck k []
   | PStartCheck, CRun => goto g (PStartSig (negb (is_nil (c_q (g_ci g))))) k [EDump]
@@ -305,10 +346,18 @@ Definition step (c : choice) (g : gst) (l : local) : option (gst * local * list 
       match g_ist g with
       | IExited =>
           let g1 := close_sockets g in
-          fin (mkG (g_sockets g1) (g_evd g1) (g_alloc g1) false (g_iopen g1) (g_ci g1) (g_co g1) INone (g_il g1) (g_gen g1)) ROk k []
+          fin (mkG (g_sockets g1) (g_evd g1) (g_alloc g1) false (g_iopen g1) (g_ci g1) (g_co g1) INone (g_il g1) (g_gen g1) (g_usr g1)) ROk k []
       | _ => None
       end
   | PGetSock, CRun => fin (alloc_sockets g) RVoid k []
+  | PUser UReg, CRun =>
+      if g_sockets g then fin (set_usr (mkU true (u_bytes (g_usr g)) false) g) ROk k [] else fin g RBadObject k []
+  | PUser UUnreg, CRun =>
+      if g_sockets g
+      then (if u_reg (g_usr g) then fin (set_usr (mkU false (u_bytes (g_usr g)) false) g) ROk k [] else fin g RNotFound k [])
+      else fin g RBadObject k []
+  | PUser UPing, CRun => fin (set_usr (mkU (u_reg (g_usr g)) (S (u_bytes (g_usr g))) (u_flag (g_usr g))) g) RVoid k []
+  | PUser UEat, CRun => fin (set_usr (mkU (u_reg (g_usr g)) 0 (u_flag (g_usr g))) g) RVoid k []
   | PIEntry, CRun => goto g PIStartupCS k [EBegin]
   | PIStartupCS, CRun =>
       if is_nil (c_q (g_co g)) then goto g PIAfterStartup k [EDump]
@@ -320,7 +369,7 @@ Definition step (c : choice) (g : gst) (l : local) : option (gst * local * list 
   | PIEvPoll, CRun => goto g (PRecvAbsorb CI WPoll) (KLoop :: k) []
   | PIExit, CRun =>
       goto (mkG (g_sockets g) (g_evd g) (g_alloc g) (g_running g) (if g_sockets g then false else g_iopen g)
-                (if g_sockets g then with_sig (g_ci g) 0 else g_ci g) (g_co g) IExited (g_il g) (g_gen g)) PIDone k [EEnd]
+                (if g_sockets g then with_sig (g_ci g) 0 else g_ci g) (g_co g) IExited (g_il g) (g_gen g) (g_usr g)) PIDone k [EEnd]
   | _, _ => None
   end.
 
@@ -341,12 +390,14 @@ Definition pc_of_op (o : op) : pc :=
   | OShutdown w => PShutdown w
   | OJoin => PJoinTest
   | OGetSock => PGetSock
+  | OUser u => PUser u
   end.
 
 (* only the owner (thread 0) receives replies and controls the internal thread's life cycle *)
 Definition allowed (t : tid) (o : op) : bool :=
   match o with
   | OSend _ _ => true
+  | OUser UPing => true
   | _ => Nat.eqb t 0
   end.
 
